@@ -37,6 +37,8 @@ def instances(tier, seed):
     out.append(dict(name="del:noterms:N3:K2", family='delete', N=3, terms={}, K=2, cost=1))
     out.append(dict(name="pop:N3:bond1+angle1", family='pop', N=3, terms={'bond': 1, 'angle': 1}, pop=True, cost=6))
     out.append(dict(name="pop-default:N3:bond1", family='pop', N=3, terms={'bond': 1}, pop=True, default=True, cost=1))
+    out.append(dict(name="del-twice:bond1+angle1:N4:K1", family='delete', N=4, terms={'bond': 1, 'angle': 1}, K=1, twice='del', cost=200))
+    out.append(dict(name="del-then-pop:bond2:N4:K1", family='delete', N=4, terms={'bond': 2}, K=1, twice='pop', cost=200))
     out.append(dict(name="del-on-copy:bond2:N3:K1", family='delete', N=3, terms={'bond': 2}, K=1, on_copy=True, cost=60))
     if big:
         out.append(dict(name="del-on-copy:bond1+angle1:N4:K1", family='delete', N=4, terms={'bond': 1, 'angle': 1}, K=1, on_copy=True, cost=600))
@@ -157,6 +159,19 @@ def body(ctx, p):
             check_deleted(ctx, a, sp, dels, label='original, afterwards: ')
             return
         del a[list(dels)]
+        if p.get('twice'):
+            # HISTORY: a second deletion on the SAME object (pop of a symbolic position, then a deletion by index list would be the same path)
+            check_deleted(ctx, a, sp, dels, label='1st: ')
+            sp2 = spec_from_state(a)
+            if sp2.N == 0:
+                return
+            d2 = [ctx.int("e0", 0, sp2.N - 1)]
+            if p['twice'] == 'pop':
+                a.pop(d2[0])
+            else:
+                del a[list(d2)]
+            check_deleted(ctx, a, sp2, d2, label='2nd deletion on the same object: ')
+            return
     K = len(dels)
     check_deleted(ctx, a, sp, dels)
 
